@@ -8,6 +8,7 @@ element 0 is 0; the curve is the cumulative sum; the shift is
 """
 
 import ast
+from .source import clone as _clone
 
 from .flow import Flow
 from .norm import NotAlgebraic, Poly, py_poly
@@ -160,7 +161,7 @@ def extract(ctx, finfo, grid_param, mean_param, np_aliases=("np", "numpy")):
                 return node
         import copy
         ex = flow.expand(a, keep={grid_param, ivar} | ({elem_var} if elem_var else set()))
-        return py_poly(_T().visit(copy.deepcopy(ex)))
+        return py_poly(_T().visit(_clone(ex)))
 
     lim_args = [a for a in core.args if any(isinstance(x, ast.Name) and x.id in (grid_param, elem_var) for x in ast.walk(flow.expand(a, keep={grid_param, ivar} | ({elem_var} if elem_var else set()))))]
     lims = []
